@@ -494,7 +494,8 @@ class Gen:
       if r < 0.30: s.add_array_unit(); continue
       if r < 0.36 and top: s.add_varslice_unit(); continue
       if r < 0.42: s.add_lambda_bank(); continue
-      if r < 0.47: s.add_const_struct_connect(); continue
+      if r < 0.50 and top: s.add_struct_array_unit(); continue
+      if r < 0.57: s.add_const_struct_connect(); continue
       if r < 0.40 and s.structs: s.add_struct_unit(); continue
       if r < 0.50: s.add_connect_unit(); continue
       # plain Bits target(s)
@@ -985,6 +986,77 @@ class Gen:
         for e in (s.fam_elems(f, d) if d else [f]): s.avail.append(Sig(e, w))
 
 
+  # ------------------------------------------------------------------ arrays of struct-typed ports / wires
+  def add_struct_array_unit(s):
+    """1-D / 2-D lists of ports (and a wire list) of a bitstruct type that has list fields whose length differs from the
+    length of the enclosing list, read element by element (constant indices and loop variables at every position) and
+    passed on to a sub-component that has the same list of struct ports"""
+    rng = s.rng
+    nleaf = lambda T: len(leaves('', ('struct', T)))
+    lists_ok = [T for T in s.structs if any(ft[0] == 'list' for _, ft in T.fields) and nleaf(T) <= 8]
+    if lists_ok and rng.random() < 0.5: T = rng.choice(lists_ok)
+    else:
+      # a small record of its own: a vector, a list of vectors, sometimes a list of small structs
+      name = f'Rec{s.uid}_{s.nsig}'
+      fields = [('a', ('bits', rng.choice([1, 3, 4, 8]))), ('b', ('list', rng.choice([2, 3, 3, 4]), ('bits', rng.choice([1, 2, 3, 8]))))]
+      small = [X for X in s.structs if nleaf(X) <= 2]
+      if small and rng.random() < 0.5: fields.append(('c', ('list', rng.choice([1, 2, 3]), ('struct', rng.choice(small)))))
+      rng.shuffle(fields)
+      T = StructT(name, fields)
+      s.pre += ['@bitstruct', f'class {name}:'] + [f'  {n}: {ft_text(ft)}' for n, ft in fields]
+      s.structs.append(T); s.feat('struct'); s.feat('struct-list-field')
+    inner = [ft[1] for _, ft in T.fields if ft[0] == 'list']
+    nd = 1 if rng.random() < 0.75 else 2
+    def size(): return rng.choice([x for x in (1, 2, 3, 4) if x not in inner] or [2])
+    dims = [size() for _ in range(nd)]
+    while __import__('math').prod(dims) * nleaf(T) > 30 and max(dims) > 1: dims[dims.index(max(dims))] -= 1
+    def ctor(kind):
+      e = f'{kind}( {T.name} )'
+      for d in reversed(dims): e = f'[ {e} for _ in range({d}) ]'
+      return e
+    nm = s.name_sig('sa'); s.lines.append(f's.{nm} = {ctor("InPort")}')
+    s.feat(f'struct-port-array-{nd}d')
+    import itertools
+    elems = [f's.{nm}' + ''.join(f'[{i}]' for i in ix) for ix in itertools.product(*[range(d) for d in dims])]
+    lv = []
+    for e in elems:
+      s.struct_sigs.append((e, T))
+      for t, w in leaves(e, ('struct', T)): s.avail.append(Sig(t, w, net_ok=False)); lv.append((t, w))
+    # one output per leaf position of the struct: the XOR over the enclosing list of that leaf, once with constants
+    # everywhere and once with loop variables for the enclosing dimensions
+    leafs = leaves('', ('struct', T))
+    on = s.name_sig('sr'); body = []
+    outs = []
+    for k, (suffix, w) in enumerate(leafs[:6]):
+      o = s.decl('OutPort' if rng.random() < 0.7 else 'Wire', w); outs.append((o, w))
+      if rng.random() < 0.5:
+        body.append(f'{o} @= ' + ' ^ '.join(f'{e}{suffix}' for e in elems))
+      else:
+        s.ntmp += 1; acc = f't{s.ntmp}'; names = ['i', 'j'][:nd]
+        body.append(f'{acc} = Bits{w}( 0 )')
+        ind = ''
+        for n_, d in zip(names, dims): body.append(f'{ind}for {n_} in range({d}):'); ind += '  '
+        body.append(f'{ind}{acc} = {acc} ^ s.{nm}' + ''.join(f'[{n_}]' for n_ in names) + suffix)
+        body.append(f'{o} @= {acc}'); s.feat('struct-port-array:loopvar-index')
+    s.comb_block(body)
+    for o, w in outs: s.avail.append(Sig(o, w))
+    # a wire list of the same shape, connected element by element, and a sub-component with such ports
+    if rng.random() < 0.5:
+      wn = s.name_sig('sq'); s.lines.append(f's.{wn} = {ctor("Wire")}')
+      for ix in itertools.product(*[range(d) for d in dims]):
+        sel = ''.join(f'[{i}]' for i in ix); s.lines.append(f's.{wn}{sel} //= s.{nm}{sel}')
+      s.feat('struct-wire-array')
+      src = wn
+    else: src = nm
+    if rng.random() < 0.5 and s.depth == 0:
+      cn = f'SubRec{s.uid}_{s.nsig}'; leaf = rng.choice(leafs); ix0 = ''.join(f'[{rng.randrange(d)}]' for d in dims); ix1 = ''.join(f'[{d - 1}]' for d in dims)
+      s.pre += [f'class {cn}( Component ):', '  def construct( s ):', f'    s.in_ = {ctor("InPort")}', f'    s.out = OutPort( {leaf[1]} )',
+                '    @update', '    def up_rec():', f'      s.out @= s.in_{ix0}{leaf[0]} ^ s.in_{ix1}{leaf[0]}']
+      ci = s.name_sig('cr'); s.lines.append(f's.{ci} = {cn}()')
+      for ix in itertools.product(*[range(d) for d in dims]):
+        sel = ''.join(f'[{i}]' for i in ix); s.lines.append(f's.{ci}.in_{sel} //= s.{src}{sel}')
+      s.avail.append(Sig(f's.{ci}.out', leaf[1])); s.feat('struct-port-array:subcomponent')
+
   # ------------------------------------------------------------------ blocks created in a python loop, constant tables
   def add_lambda_bank(s):
     """several update blocks of ONE component made by a python for-loop (`//= lambda:`), each with its own value of the
@@ -1116,6 +1188,19 @@ class DNest:
 class DVec:
   v: [ Bits4, Bits4, Bits4 ]
   t: Bits2
+@bitstruct
+class DRec:
+  a: Bits4
+  b: [ Bits3, Bits3, Bits3 ]
+@bitstruct
+class DPt3:
+  x: Bits3
+  y: Bits5
+@bitstruct
+class DPoly:
+  tag: Bits2
+  pts: [ DPt3, DPt3 ]
+  last: DPt3
 class DIfc( Interface ):
   def construct( s ):
     s.msg = InPort( 8 ); s.val = InPort()
@@ -1170,7 +1255,9 @@ class {cls}( Component ):
     ('D_loop_wrap',   mk('D_loop_wrap', 's.in_ = InPort( 4 ); s.o = [ OutPort( 4 ) for _ in range(8) ]', 'for i in range( 8 ):\n        s.o[i] @= 0\n      for i in range( 4, 0, -3 ):\n        s.o[i] @= s.in_'), 'for-negative-step-below-zero'),
     ('D_nested_ifc',  mk('D_nested_ifc', 's.bank = [ DOuter() for _ in range(2) ]', 'for i in range(2):\n        for j in range(3):\n          s.bank[i].lane[j].rsp @= s.bank[i].lane[j].msg + 1').replace('from pymtl3 import *', DPT), 'nested-interface-array'),
     ('D_array_2d',    mk('D_array_2d', 's.m = [ [ InPort( 8 ) for _ in range(3) ] for _ in range(2) ]; s.o = [ [ OutPort( 8 ) for _ in range(3) ] for _ in range(2) ]', 'for i in range(2):\n        for j in range(3):\n          s.o[i][j] @= s.m[1 - i][j] + Bits8( j )'), 'control'),
-    ('D_sext_varslice', mk('D_sext_varslice', 's.x = InPort( 16 ); s.e = InPort( 4 ); s.o = OutPort( 8 )', 's.o @= sext( s.x[ s.e : s.e + 4 ], 8 )'), 'sext-of-variable-part-select', [(r's\.e$', 12)]),
+    ('D_sext_varslice', mk('D_sext_varslice', 's.x = InPort( 16 ); s.e = InPort( 4 ); s.o = OutPort( 8 )', 's.o @= sext( s.x[ s.e : s.e + 4 ], 8 )'), 'control', [(r's\.e$', 12)]),      # regression: was emitted as x[e +] before fix 1ddf52a
     ('D_zext_varslice', mk('D_zext_varslice', 's.x = InPort( 16 ); s.e = InPort( 4 ); s.o = OutPort( 8 )', 's.o @= zext( s.x[ s.e : s.e + 4 ], 8 )'), 'control', [(r's\.e$', 12)]),
+    ('D_struct_array', mk('D_struct_array', 's.in_ = [ InPort( DRec ) for _ in range(2) ]; s.o = OutPort( 3 ); s.o2 = OutPort( 4 )', 's.o @= s.in_[0].b[2] ^ s.in_[1].b[2] ^ s.in_[1].b[0]\n      s.o2 @= s.in_[0].a + s.in_[1].a').replace('from pymtl3 import *', DPT), 'control'),
+    ('D_poly_port',   mk('D_poly_port', 's.poly = InPort( DPoly ); s.o = OutPort( 3 )', 's.o @= s.poly.pts[0].x ^ s.poly.pts[1].x ^ s.poly.last.x').replace('from pymtl3 import *', DPT), 'control'),
     ('D_red_sig',     mk('D_red_sig',     io + 's.o = OutPort( 1 )', 's.o @= reduce_xor( s.w ) & reduce_or( s.a ) | reduce_and( s.b )'), 'control'),
   ]
